@@ -1,4 +1,5 @@
 import AasVerif.Lemmas.RevmTop
+import AasVerif.Model.Retree.InRange
 /-!
 The constructors of `InstructionSet` / `InstructionNotSet` / `Range` in the generated `revm.cpp` throw on
 empty, unsorted or overlapping ranges (while the program constant is initialised).  For an accepted pattern
@@ -210,5 +211,37 @@ theorem translate_constructible (r : Regex) (p : List Leaf) (hr : Accepted r) (h
   simp only [compileTop]
   exact (neSetsTs _ (neTs_body t ts hts) 0).append
     (NoEmptySets.single .matched (by intro rs; constructor <;> intro h <;> cases h))
+
+/-! ### the image of the parser holds no character set without ranges
+
+Since the repair of the parser (a closing bracket in the first position is a member of the set) `inRangeTop`, which
+every output of `Retree.parse` satisfies, implies `neU`. -/
+
+mutual
+  theorem neV_of_inRange : (v : Value) → inRangeValue v = true → neV v = true
+    | .group u, h => by
+      simp only [inRangeValue, Bool.and_eq_true] at h
+      simpa [neV] using neU_of_inRange u h.1
+    | .set _ rs, h => by
+      simp only [inRangeValue, inRangeSet, Bool.and_eq_true] at h
+      simpa [neV] using h.1.1.1
+    | .char _, _ => by simp [neV]
+    | .fv _, _ => by simp [neV]
+    | .sym _, _ => by simp [neV]
+  theorem neTs_of_inRange : (ts : List Term) → inRangeTerms ts = true → neTs ts = true
+    | [], _ => by simp [neTs]
+    | .mk v q :: ts, h => by
+      simp only [inRangeTerms, inRangeTerm, Bool.and_eq_true] at h
+      simp [neTs, neT, neV_of_inRange v h.1.1, neTs_of_inRange ts h.2]
+  theorem neCs_of_inRange : (cs : List Concat) → inRangeConcats cs = true → neCs cs = true
+    | [], _ => by simp [neCs]
+    | .mk ts :: cs, h => by
+      simp only [inRangeConcats, Bool.and_eq_true] at h
+      simp [neCs, neC, neTs_of_inRange ts h.1, neCs_of_inRange cs h.2]
+  theorem neU_of_inRange : (u : Union) → inRangeUnion u = true → neU u = true
+    | .mk us, h => by
+      simp only [inRangeUnion] at h
+      simpa [neU] using neCs_of_inRange us h
+end
 
 end AasVerif.Revm
